@@ -1245,6 +1245,63 @@ impl TransportsSender {
     }
 }
 
+/// Harness side of a [`TransportsSender`] built by [`TransportsSender::verif_new`] (property C19).
+#[cfg(iroh_verif)]
+#[derive(Debug)]
+pub(crate) struct VerifSenderHandles {
+    ip: IpTransports,
+    pub(crate) relay: Vec<relay::VerifRelayRx>,
+}
+
+#[cfg(iroh_verif)]
+impl VerifSenderHandles {
+    /// (configuration, actually bound local address) of every bound IP socket.
+    pub(crate) fn ip_sockets(&self) -> Vec<(IpConfig, SocketAddr)> {
+        self.ip
+            .iter()
+            .map(|t| (t.verif_config(), t.local_addr_watch().get()))
+            .collect()
+    }
+}
+
+#[cfg(iroh_verif)]
+impl TransportsSender {
+    /// A sender over caller-chosen IP socket configurations (bound for real with
+    /// [`IpTransports::bind`]), `n_relay` relay senders whose actor side the caller holds, and
+    /// caller-supplied custom senders.
+    pub(crate) fn verif_new(
+        ip_configs: Vec<IpConfig>,
+        n_relay: usize,
+        custom: Vec<Arc<dyn CustomSender>>,
+    ) -> io::Result<(Self, VerifSenderHandles)> {
+        let metrics = EndpointMetrics::default();
+        let ip = IpTransports::bind(ip_configs.into_iter(), &metrics)?;
+        let (relay, relay_rx): (Vec<_>, Vec<_>) =
+            (0..n_relay).map(|_| RelaySender::verif_new(4)).unzip();
+        let sender = TransportsSender {
+            ip: ip.create_sender(),
+            relay,
+            custom,
+            max_transmit_segments: NonZeroUsize::MIN,
+        };
+        Ok((
+            sender,
+            VerifSenderHandles {
+                ip,
+                relay: relay_rx,
+            },
+        ))
+    }
+}
+
+#[cfg(iroh_verif)]
+impl Sender {
+    /// The `noq::UdpSender` of a socket, over a harness-built [`TransportsSender`].
+    pub(crate) fn verif_new(sock: Arc<Socket>, sender: TransportsSender) -> Self {
+        Self { sock, sender }
+    }
+}
+
 /// A [`Transports`] that works with [`MultipathMappedAddr`]s and their IPv6 representation.
 ///
 /// The [`MultipathMappedAddr`]s have an IPv6 representation that Noq uses.  This struct
